@@ -22,3 +22,10 @@ Theorem C06_require_group_sorting_idempotent : forall body trivia g,
   SortReq.sort_group (list ascii) SortReq.str_leb body trivia g.
 Proof. intros. apply (SortReqProof.sort_group_idem (list ascii) SortReq.str_leb SortReqProof.str_leb_total). Qed.
 Print Assumptions C06_require_group_sorting_idempotent.
+
+(* L0 - the whole-formatter model on a fragment of Lua 5.1 (Fmt0.v), tied to the binary byte for byte on every run:
+   normalisation is not idempotent; the witness `local x = (- -f())` is replayed on the binary by the check (known finding) *)
+From SV Require Fmt0 Fmt0Proof.
+Theorem C06_L0_normalisation_not_idempotent_refuted : exists p, Fmt0.nprog (Fmt0.nprog p) <> Fmt0.nprog p.
+Proof. exact Fmt0Proof.nprog_not_idempotent_refuted. Qed.
+Print Assumptions C06_L0_normalisation_not_idempotent_refuted.
